@@ -368,6 +368,32 @@ func init() {
 				}
 			}
 			c.Check(okT, "timer-kept-running", c.P.Pos(gd.Pos()), "tReconfig.start while requests are outstanding", "reconfig timer not (re)started after emitting requests")
+			// the timer is stopped only when nothing is outstanding (or to be restarted at once)
+			lenRecon := func(v ssa.Value) bool {
+				call, ok := unconv(v).(*ssa.Call)
+				if !ok {
+					return false
+				}
+				b, ok := call.Call.Value.(*ssa.Builtin)
+				return ok && b.Name() == "len" && IsLoadOf(recon)(call.Call.Args[0])
+			}
+			stopFn, startFn := c.Fn("rtxTimer.stop"), c.Fn("rtxTimer.start")
+			onTR := func(in ssa.Instruction, fn *ssa.Function) bool {
+				ci, ok := in.(ssa.CallInstruction)
+				return ok && ci.Common().StaticCallee() == fn && len(ci.Common().Args) > 0 && IsLoadOf(tr)(ci.Common().Args[0])
+			}
+			ks := keyer{}
+			for _, fn := range c.P.Funcs {
+				for _, sc := range callsIn(fn, stopFn) {
+					if !onTR(sc, stopFn) {
+						continue
+					}
+					okEmpty := DominatedByExt(sc, CmpCond(token.EQL, lenRecon, IsConstInt(0)))
+					okRestart, _ := MustPass(sc, func(x ssa.Instruction) bool { return onTR(x, startFn) }, nil)
+					c.Check(okEmpty || okRestart, ks.key("stop-only-when-none-outstanding@"+c.P.FuncName(fn)), c.Pos(sc), "tReconfig.stop() is dominated by len(reconfigs)==0 or restarts the timer at once",
+						"the reconfig timer is stopped while reset requests may still be outstanding: a lost request is never retransmitted ("+c.describeConds(sc)+")")
+				}
+			}
 		}})
 
 	register(&Rule{ID: "C14.R7", Props: []string{"C14", "C18"}, Engine: "E2+E3",
